@@ -139,7 +139,15 @@ pub fn analyze_text(text: &str) -> Result<FileFacts, String> {
             let in_calibration = n
                 .ancestors()
                 .any(|a| matches!(a.kind(), SyntaxKind::CAL | SyntaxKind::DEF_CAL));
-            if n.kind() == SyntaxKind::INCLUDE && !top_include_starts.contains(&s) && !in_calibration {
+            // likewise an include inside a block that is an *operand of an expression*
+            // (`CX a, b/{ include "x"; }` — the parser lets a block stand where an expression is
+            // expected): no construct of the language opens a scope there, so this is not "an
+            // include below global scope" in C18's sense but a matter of what the parser accepts
+            let in_operand = n
+                .ancestors()
+                .skip(1)
+                .any(|a| a.kind() != SyntaxKind::BLOCK_EXPR && synast::Expr::can_cast(a.kind()));
+            if n.kind() == SyntaxKind::INCLUDE && !top_include_starts.contains(&s) && !in_calibration && !in_operand {
                 facts.nested_includes.push((s, e));
             }
         }
